@@ -237,14 +237,14 @@ theorem retries_bound (env : Env) (l : Limits) (N : Int) (hN : l.retries = some 
       cases hg : r.awakened (now + dt) with
       | false => rw [run_cycle_idle _ _ _ _ _ _ _ _ _ _ hg]; exact ih _ _
       | true =>
-        rw [run_cycle_awake _ _ _ _ _ _ _ _ _ _ hg]
+        rw [run_cycle_awake _ _ _ _ _ _ _ _ _ _ hg, invocations_cons_att]
         have ih' := ih (attemptAt env l (now + dt + wait) r x dur lag).merged
           (attemptAt env l (now + dt + wait) r x dur lag).recAfter
-        simp only [invocations, attempts_cons_att, List.filter_cons, attemptAt_out, attemptAt_rec_retries] at ih' ⊢
-        by_cases hi : (classify env l r (now + dt + wait) dur x).invoked = true
+        rw [attemptAt_rec_retries] at ih'
+        by_cases hi : (attemptAt env l (now + dt + wait) r x dur lag).out.invoked = true
         · have hp := (classify_invoked_iff env l r _ dur x).1 hi
           have hlt := retriesOut_false_of l _ N hN ((precheck_none_iff l r _).1 hp).2
-          rw [if_pos hi, List.length_cons]
+          rw [if_pos hi]
           omega
         · rw [if_neg hi]; omega
 
@@ -547,7 +547,8 @@ theorem loop_timeout_bound (env : Env) (l : Limits) (T : Int) (hT : l.timeout = 
     (script : List (Raised × Nat)) (a : Attempt)
     (ha : a ∈ loopRun env l now (fromScratch now) script) (hi : a.out.invoked = true) : a.time - now < T := by
   rw [← loop_is_run] at ha
-  have := timeout_bound env l T hT _ now (fromScratch now) a (by simp [invocations, ha, hi])
+  have := timeout_bound env l T hT (loopSteps env l now (fromScratch now) script) now (fromScratch now) a
+    (List.mem_filter.2 ⟨ha, hi⟩)
   simpa [fromScratch] using this
 
 theorem loop_delay_respected (env : Env) (l : Limits) (now : Int) (r : Rec) (script : List (Raised × Nat)) :
